@@ -24,6 +24,10 @@ def run(ctx):
                       "_Dynamic_last and _Dynamic_time are written; otherwise the cached value is returned and nothing is written (exhaustive abstract cases)", floor=1)
     ctx.rule("R19.e", "reading a generator never moves the clock: in numbergen every call that SETS the time (time_fn(<value>)) is made inside `with self.time_fn` (whose exit restores the "
                       "saved time) or is followed on every exit by a call restoring a value that was read from the clock and not modified since", floor=1)
+    ctx.rule("R19.f", "every value generator gets its own bookkeeping: Dynamic._initialize_generator, interpreted abstractly on two generators in a row, gives each its own (distinct, empty) "
+                      "save stacks _saved_Dynamic_last / _saved_Dynamic_time, and the initial cache (_Dynamic_last None, _Dynamic_time -1); shared stacks make _state_pop hand generator b's value to a", floor=1)
+    ctx.rule("R19.g", "a copied generator hashes like the original: Hash.__init__ and Hash.__setstate__ (used by deepcopy and pickle), interpreted abstractly, feed the md5 state the same "
+                      "sequence of inputs -- everything that __init__ feeds (name, seed suffix) is fed again when the object is restored", floor=1)
     ctx.rule("R19.d", "Time.__enter__ pushes exactly the tuple __exit__ unpacks; _state_push appends exactly the fields _state_pop pops, from the same per-generator stacks", floor=2)
     ctx.not_decided += ["numeric equality of the generated values (depends on the stdlib PRNG)"]
 
@@ -281,3 +285,79 @@ def run(ctx):
                                         "reading the generator leaves the clock somewhere else, so later reads see another time" % (norm(c)[:60], "exceptional" if leak is gcfg.excexit else "normal"),
                          key="%s::clock-moved-by-read" % g.qualname, input="TimeSampledFn(offset=0.25, ...) on a Fraction clock: calling it changes time_fn()")
     ctx.require(n_set >= 1, "no clock-setting call found in numbergen (TimeSampledFn.__call__ changed shape): anchor of R19.e vanished")
+
+    # ---------------------------------------------------------------- R19.f
+    ig = ctx.repo.method("param.parameters.Dynamic", "_initialize_generator")
+    it_f = Interp(ctx.hier, dyn="param.parameters.Dynamic", inline=lambda m: True,
+                  call_hook=lambda fn, args, kwargs: (isinstance(args[0], Obj) and args[1] in args[0].attrs) if fn == "hasattr" and len(args) == 2 else NotImplemented)
+    dyn_param = Obj("dynamic_parameter", __cls__="param.parameters.Dynamic")
+    g1, g2 = Obj("generator_1"), Obj("generator_2")
+    try:
+        for g_ in (g1, g2):
+            it_f.choices, it_f.cursor, it_f.imprecise, it_f.notes = [], 0, False, []
+            it_f.call_func(ig, {ig.params[0]: dyn_param, ig.params[1]: g_, "obj": None})
+            if it_f.imprecise:
+                raise AnalysisError("absint imprecise on Dynamic._initialize_generator (%s) -- R19.f cannot decide" % it_f.notes[:2])
+    except Unsupported as e:
+        raise AnalysisError("absint cannot interpret Dynamic._initialize_generator: %s -- R19.f cannot decide" % e)
+    ctx.abstract_cases += 2
+    badf = None
+    for attr in ("_saved_Dynamic_last", "_saved_Dynamic_time"):
+        a, b = g1.attrs.get(attr, "missing"), g2.attrs.get(attr, "missing")
+        if not isinstance(a, list) or not isinstance(b, list) or a or b:
+            badf = "%s is %r / %r after initialisation (specification: an empty list for each generator)" % (attr, a, b)
+        elif a is b:
+            badf = "two generators are given the SAME list object as %s: _state_push appends and _state_pop pops in parameter order, so with a shared stack the generators get each other's saved values back" % attr
+    if g1.attrs.get("_Dynamic_last", "missing") is not None or g1.attrs.get("_Dynamic_time", "missing") != -1:
+        badf = badf or "the initial cache is (_Dynamic_last=%r, _Dynamic_time=%r), specification (None, -1)" % (g1.attrs.get("_Dynamic_last", "missing"), g1.attrs.get("_Dynamic_time", "missing"))
+    if badf:
+        ctx.fail("R19.f", ig, ig.node, "Dynamic._initialize_generator: " + badf, key=ig.qualname + "::shared-bookkeeping",
+                 input="P(a=gen1, b=gen2); p.param._state_push(); p.a; p.b; p.param._state_pop() -> p.a reads b's value")
+    else:
+        ctx.ok("R19.f", ig, ig.node, "two generators initialised in a row: distinct empty save stacks, cache (None, -1)")
+
+    # ---------------------------------------------------------------- R19.g
+    HQ = "numbergen.Hash"
+    hinit, hset, hget = ctx.repo.method(HQ, "__init__"), ctx.repo.method(HQ, "__setstate__"), ctx.repo.method(HQ, "__getstate__")
+    ctx.require(hinit and hset and hget, "numbergen.Hash no longer defines __init__/__getstate__/__setstate__")
+
+    def run_hash(fn_, env_):
+        feeds = []
+
+        def hk(fn, args, kwargs):
+            if fn == "hashlib.md5":
+                return Obj("md5_state")
+            if fn.endswith(".encode") and not args:
+                return ("encoded", getattr(it_h, "current_receiver", None))
+            if fn.endswith("._digest.update") or fn.endswith("digest.update"):
+                feeds.append(args[0] if args else None)
+                return None
+            if fn.endswith(".__dict__.update") or fn.endswith(".__dict__.copy"):
+                return NotImplemented
+            return NotImplemented
+        hk.needs_receiver = True
+        it_h = Interp(ctx.hier, dyn=HQ, inline=lambda m: False, call_hook=hk, globals={"hashlib": Obj("hashlib"), "struct": Obj("struct")})
+        try:
+            it_h.choices, it_h.cursor, it_h.imprecise, it_h.notes = [], 0, False, []
+            it_h.call_func(fn_, env_)
+        except Unsupported as e:
+            raise AnalysisError("absint cannot interpret numbergen.Hash.%s: %s -- R19.g cannot decide" % (fn_.name, e))
+        return feeds
+    nm, salt = Obj("name_string"), Obj("extra_string_argument")
+    hobj = Obj("hash_object")
+    env0 = {hinit.params[0]: hobj, hinit.params[1]: nm, hinit.params[2]: 2}
+    for extra in hinit.params[3:]:
+        env0[extra] = salt
+    f_init = run_hash(hinit, env0)
+    state = {k: v for k, v in hobj.attrs.items() if k not in ("_digest", "_hash_struct")}
+    hobj2 = Obj("restored_hash_object")
+    f_set = run_hash(hset, {hset.params[0]: hobj2, hset.params[1]: dict(state)})
+    ctx.abstract_cases += 2
+    key_of = lambda x: ("encoded", id(x[1])) if isinstance(x, tuple) else ("other", id(x))
+    if [key_of(x) for x in f_init] != [key_of(x) for x in f_set] or not f_init:
+        ctx.fail("R19.g", hset, hset.node, "Hash.__init__ feeds the md5 state %s, Hash.__setstate__ feeds it %s: a deep-copied or unpickled generator (every instance gets a deep copy of the class-level "
+                                           "generator) hashes differently from the generator it was copied from -- e.g. it loses its seed" % (
+                                               [getattr(x[1], "name", x) if isinstance(x, tuple) else x for x in f_init], [getattr(x[1], "name", x) if isinstance(x, tuple) else x for x in f_set]),
+                 key=hset.qualname + "::digest-inputs-differ", input="gen = UniformRandom(seed=42); copy.deepcopy(gen)() != gen() at the same time")
+    else:
+        ctx.ok("R19.g", hset, hset.node, "__init__ and __setstate__ feed the md5 state the same %d input(s)" % len(f_init))
